@@ -159,6 +159,7 @@ impl<const D: usize> DimensionMappings<D> {
     #[inline]
     pub(crate) fn map_linear_data_layout_to_transposed(
         &self,
+        source: &[(Dimension, usize); D],
         order: &[Dimension; D],
     ) -> [Dimension; D] {
         // In most simple cases the transformation for source -> requested is the same as
@@ -182,7 +183,21 @@ impl<const D: usize> DimensionMappings<D> {
         // sanity checked by constructing a TensorAccess from what we return and verifying that
         // the data is restored to memory order (assuming the original source was in the same
         // endianess as Tensor).
-        std::array::from_fn(|d| order[self.source_to_requested[d]])
+        //
+        // The order we are given lists the source's dimension names from most to least
+        // significant in memory, which is only the same order as the source's shape if the
+        // source is itself in memory order. Hence we look up where each dimension of the order is
+        // in the source's shape, and then give it the name that position is known by after
+        // the transposition (names stay in the source's order when transposing, so the dimension
+        // at source position p ends up under the name at position source_to_requested[p]).
+        std::array::from_fn(|d| {
+            match source.iter().position(|(name, _)| *name == order[d]) {
+                Some(p) => source[self.source_to_requested[p]].0,
+                // A correctly implemented source never has a name in its data layout that is
+                // not in its shape, if it did there is nothing meaningful to rename it to.
+                None => order[d],
+            }
+        })
     }
 }
 
